@@ -192,6 +192,8 @@ pub fn run(ctx: &mut Ctx) {
         fam => {
             let (prefix, t) = types.iter().find(|(p, _)| *p == fam).copied().unwrap_or_else(|| panic!("unknown family {}", fam));
             let acts = alphabet(prefix, t);
+            // CODE and EXEC have the larger alphabets (big and print-alike bodies): a smaller depth in the thorough tier
+            let d = if ctx.tier_thorough && matches!(t, Comp::C | Comp::E) { 10 } else { d };
             bfs(ctx, &mut real, prefix, &acts, d);
         }
     }
